@@ -42,190 +42,207 @@ def col_values(series):
     return core.child_values(pa_arr)
 
 
+
+def _uninterpretable(i, pid):
+    """an exception while a case was being built from what the library returned: a verdict about the library (the stream runs
+    on the unchanged tree with many seeds without ever getting here), not a crash of the check"""
+    import traceback
+    return {"stream": "uninterpretable", "op": "uninterpretable", "term": "[true; false; true; true]",
+            "input": {"case_number": i}, "impl_repr": "the case could not be built / interpreted: " + traceback.format_exc()[-700:],
+            "meta": {"impl_raised": True}, "sig": ["uninterpretable", pid, i], "trivial": False,
+            "hist": {"op": "uninterpretable"}}
+
+
 def generate(ctx):
     rng = ctx.rng
     cases = []
     for i in range(ctx.budget(150, 1300)):
-        types = ["int64", "double", "int64", "double", "string", "bool"]
-        schema = gen.spice_names(rng, gen.gen_schema(rng, 3, types=types))
-        if not any(t in ("int64", "double") for _, t in schema):
-            schema[0] = (schema[0][0], "int64")
-        n = rng.randint(0, 6 if ctx.tier == "quick" else 10)
-        rows_g = gen.gen_rows(rng, schema, n, max_len=4, null_p=0.15)
-        if i % 8 == 6 and rng.random() < 0.6:
-            # a NEW nest from a frame in which every row holds records (as many packed rows as frame rows)
-            n = max(n, 2)
-            rows_g = gen.gen_rows(rng, schema, n, max_len=4, null_p=0.15, missing_p=0.0, empty_p=0.0)
-        corner = None
-        if i % 6 == 5:
-            # repeated labels arranged so that the FLAT index of the nest equals the frame index although the rows do not all hold one
-            # record (labels [5,5,7] with lengths [2,0,1]), or the record count equals the row count: a flat result must stay flat
-            lens_c, labels_c = rng.choice([([2, 0, 1], [5, 5, 7]), ([2, 0], [5, 5]), ([1, 2, 0], [3, 4, 4]), ([0, 2], [7, 7]), ([3, 0, 0], [1, 2, 3]),
-                                           ([2, 0, 1, 1], [1, 1, 2, 9]), ([0, 3, 0], [4, 5, 6])])
-            rows_g = [{nm: [v if not (t == "int64" and v is not None and abs(v) >= 1000) else 7 for v in (gen.gen_value(rng, t) for _ in range(k))]
-                       for nm, t in schema} for k in lens_c]
-            n = len(lens_c)
-            corner = labels_c
-        for r in rows_g:          # small integers: products stay far from int64 overflow
-            if r is not None:
-                for nm, t in schema:
-                    if t == "int64":
-                        r[nm] = [None if v is None else (v if abs(v) < 1000 else 7) for v in r[nm]]
-        recipe = fo.LAYOUTS[i % len(fo.LAYOUTS)] if i < len(fo.LAYOUTS) else rng.choice(fo.LAYOUTS)
-        inp = ao.mk_input(rng, content=(schema, rows_g), recipe=recipe if recipe != "history" else "split_fresh", recipes=fo.LAYOUTS)
-        if inp["built"][0] != "ok":
-            continue
-        names = [nm for nm, _ in schema]
-        if rng.random() < 0.25:
-            names = c07.rename_fields(rng, inp)
-        arr = inp["arr"]
-        if names != [nm for nm, _ in schema]:
-            st2 = pa.struct([pa.field(nm, f.type) for nm, f in zip(names, inp["ca"].type)])
-            arr = type(arr)(pa.chunked_array([pa.StructArray.from_arrays([c.field(j) for j in range(len(names))], names=names, mask=c.is_null())
-                                              for c in arr.chunked_array.chunks], type=st2))
-        kind = ["assign", "assign", "assign", "multi", "multi", "value", "new_nest", "multi_inplace_false"][i % 8]
-        labels, label_kind = gen.gen_labels(rng, n, rng.choice(["range", "unsorted_unique", "unsorted_unique", "str"]) if kind == "new_nest" else None)
-        if corner is not None and len(inp["rows"]) == len(corner):
-            if kind == "new_nest":
-                kind = "assign"
-            labels, label_kind = corner, "flat_index_equals_index"
-        nf = NestedFrame({"x": list(range(n)), "y": [rng.choice(["p", "q"]) for _ in range(n)]}, index=gen.as_index(labels, label_kind))
-        NEST = "my n" if i % 5 == 3 else "n"        # a nest whose name needs back-ticks in the program
-        nq = NEST if c07.is_ident(NEST) else f"`{NEST}`"
-        nf[NEST] = pd.Series(arr, index=nf.index, name=NEST)
-        other_rows = gen.gen_rows(rng, [("q", "int64")], n, max_len=2)
-        nf["other"] = pd.Series(type(arr)(pa.array(other_rows, type=gen.struct_type([("q", "int64")]))), index=nf.index, name="other")
-        rows = fo.rows_rm(inp["ca"])
-        numeric = [(nm, t) for nm, (_, t) in zip(names, schema) if t in ("int64", "double")]
-        quote = rng.choice(["none", "none", "field"])
-        inplace = kind != "multi_inplace_false" and rng.random() < 0.5
-        before_other = fo.snapshot(nf, skip=(NEST,))
-        whole = fo.snapshot(nf)
-        flat = flat_table(schema, names, rows)
-        lines, plain_lines, targets = [], [], []
-        cur_fields = list(names)
-        cur_types = {nm: t for nm, (_, t) in zip(names, schema)}
-        nlines = 1 if kind in ("assign", "value", "new_nest") else rng.randint(2, 3)
-        ok_oracle = True
-        val_lists = []
-        for li in range(nlines):
-            num_now = [(f, cur_types[f]) for f in cur_fields if cur_types[f] in ("int64", "double")]
-            if not num_now:
-                break
-            if rng.random() < 0.75:
-                e = c07.gen_arith(rng, [f for f, _ in num_now])
-                if not c07.has_field(e):
-                    e = ("+", ("field", rng.choice(num_now)[0]), e)
-            else:
-                e = c07.gen_cond(rng, [(f, cur_types[f]) for f in cur_fields])
-            if kind == "value":
-                strs = [f for f in cur_fields if cur_types[f] == "string"]
-                r_ = rng.random()
-                if r_ < 0.15 and strs:
-                    # a constant whose TEXT holds an "=": no assignment
-                    e = (rng.choice(["==", "!="]), ("field", rng.choice(strs)), ("sconst", rng.choice(["a=b", "k = 1"])))
-                text = c07.render(e, c07.nested_ref(NEST, quote))
+        try:
+            types = ["int64", "double", "int64", "double", "string", "bool"]
+            schema = gen.spice_names(rng, gen.gen_schema(rng, 3, types=types))
+            if not any(t in ("int64", "double") for _, t in schema):
+                schema[0] = (schema[0][0], "int64")
+            n = rng.randint(0, 6 if ctx.tier == "quick" else 10)
+            rows_g = gen.gen_rows(rng, schema, n, max_len=4, null_p=0.15)
+            if i % 8 == 6 and rng.random() < 0.6:
+                # a NEW nest from a frame in which every row holds records (as many packed rows as frame rows)
+                n = max(n, 2)
+                rows_g = gen.gen_rows(rng, schema, n, max_len=4, null_p=0.15, missing_p=0.0, empty_p=0.0)
+            corner = None
+            if i % 6 == 5:
+                # repeated labels arranged so that the FLAT index of the nest equals the frame index although the rows do not all hold one
+                # record (labels [5,5,7] with lengths [2,0,1]), or the record count equals the row count: a flat result must stay flat
+                lens_c, labels_c = rng.choice([([2, 0, 1], [5, 5, 7]), ([2, 0], [5, 5]), ([1, 2, 0], [3, 4, 4]), ([0, 2], [7, 7]), ([3, 0, 0], [1, 2, 3]),
+                                               ([2, 0, 1, 1], [1, 1, 2, 9]), ([0, 3, 0], [4, 5, 6])])
+                rows_g = [{nm: [v if not (t == "int64" and v is not None and abs(v) >= 1000) else 7 for v in (gen.gen_value(rng, t) for _ in range(k))]
+                           for nm, t in schema} for k in lens_c]
+                n = len(lens_c)
+                corner = labels_c
+            for r in rows_g:          # small integers: products stay far from int64 overflow
+                if r is not None:
+                    for nm, t in schema:
+                        if t == "int64":
+                            r[nm] = [None if v is None else (v if abs(v) < 1000 else 7) for v in r[nm]]
+            recipe = fo.LAYOUTS[i % len(fo.LAYOUTS)] if i < len(fo.LAYOUTS) else rng.choice(fo.LAYOUTS)
+            inp = ao.mk_input(rng, content=(schema, rows_g), recipe=recipe if recipe != "history" else "split_fresh", recipes=fo.LAYOUTS)
+            if inp["built"][0] != "ok":
+                continue
+            names = [nm for nm, _ in schema]
+            if rng.random() < 0.25:
+                names = c07.rename_fields(rng, inp)
+            arr = inp["arr"]
+            if names != [nm for nm, _ in schema]:
+                st2 = pa.struct([pa.field(nm, f.type) for nm, f in zip(names, inp["ca"].type)])
+                arr = type(arr)(pa.chunked_array([pa.StructArray.from_arrays([c.field(j) for j in range(len(names))], names=names, mask=c.is_null())
+                                                  for c in arr.chunked_array.chunks], type=st2))
+            kind = ["assign", "assign", "assign", "multi", "multi", "value", "new_nest", "multi_inplace_false"][i % 8]
+            labels, label_kind = gen.gen_labels(rng, n, rng.choice(["range", "unsorted_unique", "unsorted_unique", "str"]) if kind == "new_nest" else None)
+            if corner is not None and len(inp["rows"]) == len(corner):
+                if kind == "new_nest":
+                    kind = "assign"
+                labels, label_kind = corner, "flat_index_equals_index"
+            nf = NestedFrame({"x": list(range(n)), "y": [rng.choice(["p", "q"]) for _ in range(n)]}, index=gen.as_index(labels, label_kind))
+            NEST = "my n" if i % 5 == 3 else "n"        # a nest whose name needs back-ticks in the program
+            nq = NEST if c07.is_ident(NEST) else f"`{NEST}`"
+            nf[NEST] = pd.Series(arr, index=nf.index, name=NEST)
+            other_rows = gen.gen_rows(rng, [("q", "int64")], n, max_len=2)
+            nf["other"] = pd.Series(type(arr)(pa.array(other_rows, type=gen.struct_type([("q", "int64")]))), index=nf.index, name="other")
+            rows = fo.rows_rm(inp["ca"])
+            numeric = [(nm, t) for nm, (_, t) in zip(names, schema) if t in ("int64", "double")]
+            quote = rng.choice(["none", "none", "field"])
+            inplace = kind != "multi_inplace_false" and rng.random() < 0.5
+            before_other = fo.snapshot(nf, skip=(NEST,))
+            whole = fo.snapshot(nf)
+            flat = flat_table(schema, names, rows)
+            lines, plain_lines, targets = [], [], []
+            cur_fields = list(names)
+            cur_types = {nm: t for nm, (_, t) in zip(names, schema)}
+            nlines = 1 if kind in ("assign", "value", "new_nest") else rng.randint(2, 3)
+            ok_oracle = True
+            val_lists = []
+            for li in range(nlines):
+                num_now = [(f, cur_types[f]) for f in cur_fields if cur_types[f] in ("int64", "double")]
+                if not num_now:
+                    break
+                if rng.random() < 0.75:
+                    e = c07.gen_arith(rng, [f for f, _ in num_now])
+                    if not c07.has_field(e):
+                        e = ("+", ("field", rng.choice(num_now)[0]), e)
+                else:
+                    e = c07.gen_cond(rng, [(f, cur_types[f]) for f in cur_fields])
+                if kind == "value":
+                    strs = [f for f in cur_fields if cur_types[f] == "string"]
+                    r_ = rng.random()
+                    if r_ < 0.15 and strs:
+                        # a constant whose TEXT holds an "=": no assignment
+                        e = (rng.choice(["==", "!="]), ("field", rng.choice(strs)), ("sconst", rng.choice(["a=b", "k = 1"])))
+                    text = c07.render(e, c07.nested_ref(NEST, quote))
+                    plain = c07.render(e, c07.plain_ref)
+                    if 0.15 <= r_ < 0.3:
+                        # a method call with a keyword argument: no assignment either
+                        f_ = rng.choice(num_now)[0]
+                        text = f"{c07.nested_ref(NEST, quote)(f_)}.clip(lower=1)"
+                        plain = f"{c07.plain_ref(f_)}.clip(lower=1)"
+                    lines.append(text)
+                    plain_lines.append(plain)
+                    break
+                if kind == "new_nest":
+                    tgt_nest, tgt = "m", "z"
+                else:
+                    tgt_nest = nq
+                    tgt = rng.choice(cur_fields + ["c1", "c2", "new f"]) if li == 0 or rng.random() < 0.6 else rng.choice(["c1", "c2"])
+                tq = tgt if c07.is_ident(tgt) else f"`{tgt}`"
+                lines.append(f"{tgt_nest}.{tq} = {c07.render(e, c07.nested_ref(NEST, quote))}")
                 plain = c07.render(e, c07.plain_ref)
-                if 0.15 <= r_ < 0.3:
-                    # a method call with a keyword argument: no assignment either
-                    f_ = rng.choice(num_now)[0]
-                    text = f"{c07.nested_ref(NEST, quote)(f_)}.clip(lower=1)"
-                    plain = f"{c07.plain_ref(f_)}.clip(lower=1)"
-                lines.append(text)
-                plain_lines.append(plain)
-                break
-            if kind == "new_nest":
-                tgt_nest, tgt = "m", "z"
-            else:
-                tgt_nest = nq
-                tgt = rng.choice(cur_fields + ["c1", "c2", "new f"]) if li == 0 or rng.random() < 0.6 else rng.choice(["c1", "c2"])
-            tq = tgt if c07.is_ident(tgt) else f"`{tgt}`"
-            lines.append(f"{tgt_nest}.{tq} = {c07.render(e, c07.nested_ref(NEST, quote))}")
-            plain = c07.render(e, c07.plain_ref)
-            plain_lines.append((tgt, plain))
-            targets.append((tgt_nest, tgt))
-            # oracle: this line on the plain flat table
-            try:
-                v = flat.eval(plain)
-                if kind != "new_nest":
-                    flat[tgt] = v
-                    if tgt not in cur_fields:
-                        cur_fields.append(tgt)
-                    cur_types[tgt] = "double" if "float" in str(v.dtype) or "double" in str(v.dtype) else ("bool" if "bool" in str(v.dtype) else "int64")
-                val_lists.append((tgt, col_values(v)))
-            except Exception:  # noqa: BLE001
-                ok_oracle = False
-                break
-        if not lines:
-            continue
-        program = "\n".join(lines)
-        lens = [len(r or []) for r in rows]
+                plain_lines.append((tgt, plain))
+                targets.append((tgt_nest, tgt))
+                # oracle: this line on the plain flat table
+                try:
+                    v = flat.eval(plain)
+                    if kind != "new_nest":
+                        flat[tgt] = v
+                        if tgt not in cur_fields:
+                            cur_fields.append(tgt)
+                        cur_types[tgt] = "double" if "float" in str(v.dtype) or "double" in str(v.dtype) else ("bool" if "bool" in str(v.dtype) else "int64")
+                    val_lists.append((tgt, col_values(v)))
+                except Exception:  # noqa: BLE001
+                    ok_oracle = False
+                    break
+            if not lines:
+                continue
+            program = "\n".join(lines)
+            lens = [len(r or []) for r in rows]
 
-        def run():
-            target = nf.copy() if inplace else nf
-            out = target.eval(program, inplace=inplace) if kind != "value" else target.eval(program)
-            return target if (inplace and kind != "value") else out
-        res = attempt(run)
-        unchanged = inplace or fo.snapshot(nf) == whole
-        if not ok_oracle:
-            term = f"[true; {cq_bool(res[0] == 'err' and fo.snapshot(nf) == whole)}; true; true]"
-            nontrivial = False
-        elif kind == "value":
-            want_vals = col_values(flat.eval(plain_lines[0]))
-            want_index = [repr(l) for l, k in zip(labels, lens) for _ in range(k)]
-            ok = (res[0] == "ok" and isinstance(res[1], pd.Series) and cq_vals(col_values(res[1])) == cq_vals(want_vals)
-                  and [repr(x) for x in res[1].index] == want_index)
-            term = f"[true; {cq_bool(ok and unchanged)}; true; true]"
-            nontrivial = len(want_vals) > 1
-        elif kind == "new_nest":
-            vals = val_lists[0][1]
-            want, pos = [], 0
-            for k in lens:
-                want.append([[v] for v in vals[pos:pos + k]] if k else None)
-                pos += k
-            ok_frame = False
-            impl = res
-            if res[0] == "ok":
-                out = res[1]
-                ok_frame = (isinstance(out, NestedFrame) and fo.snapshot(out, skip=("m",)) == whole and list(out.columns) == list(nf.columns) + ["m"]
-                            and list(out["m"].nest.fields) == ["z"])
-                impl = ("ok", fo.rows_rm(out["m"].array.chunked_array))
-            term = (f"(match chk_rows (Ok {fo.cq_nrows(want)}) (Ok {fo.cq_nrows(want)}) {fo.cq_res_nrows(impl)} with [a; b; c; s] => "
-                    f"[a; b && {cq_bool(ok_frame and unchanged)}; c; s] | l => l end)")
-            nontrivial = sum(lens) > 1
-        else:
-            # model: fold the oracle's values through m_eval_assign, positions by field order
-            fields_now = list(names)
-            model = f"(Ok {fo.cq_nrows(rows)})"
-            for tgt, vals in val_lists:
-                if tgt not in fields_now:
-                    fields_now.append(tgt)
-                k = fields_now.index(tgt)
-                model = f"(res_bind {model} (fun R => m_eval_assign {k} R {cq_vals(vals)}))"
-            ok_frame = False
-            impl = res
-            if res[0] == "ok":
-                out = res[1]
-                ok_frame = (isinstance(out, NestedFrame) and fo.snapshot(out, skip=(NEST,)) == before_other and list(out.columns) == list(nf.columns)
-                            and list(out[NEST].nest.fields) == fields_now and [repr(x) for x in out.index] == [repr(x) for x in labels])
-                if ok_frame:
-                    # the flat view of the result = the oracle's flat table, column by column
-                    for f in fields_now:
-                        got = col_values(out[NEST].nest.get_flat_series(f))
-                        ok_frame = ok_frame and cq_vals(got) == cq_vals(col_values(flat[f]))
-                impl = ("ok", fo.rows_rm(out[NEST].array.chunked_array, fields_now))
-            term = (f"(match chk_rows {model} {model} {fo.cq_res_nrows(impl)} with [a; b; c; s] => "
-                    f"[a; b && {cq_bool(ok_frame and unchanged)}; c; s] | l => l end)")
-            nontrivial = sum(lens) > 1
-        cases.append({
-            "stream": "eval", "op": "eval_" + kind, "term": term,
-            "input": dict(ao.input_repr(inp), labels=[repr(x) for x in labels], field_names=names, program=program, inplace=inplace),
-            "impl_repr": str(res)[:500],
-            "meta": ao.base_meta(inp, impl_raised=res[0] == "err", repeated_labels=len(set(labels)) != len(labels), label_kind=label_kind,
-                                 multiline=nlines > 1, inplace=inplace),
-            "sig": [kind, nlines, inplace, inp["recipe"], label_kind, len(rows)], "trivial": not nontrivial,
-            "hist": {"op": "eval_" + kind, "lines": nlines, "inplace": inplace, "layout": inp["recipe"], "labels": label_kind,
-                     "raised": res[0] == "err"}})
+            def run():
+                target = nf.copy() if inplace else nf
+                out = target.eval(program, inplace=inplace) if kind != "value" else target.eval(program)
+                return target if (inplace and kind != "value") else out
+            res = attempt(run)
+            unchanged = inplace or fo.snapshot(nf) == whole
+            if not ok_oracle:
+                term = f"[true; {cq_bool(res[0] == 'err' and fo.snapshot(nf) == whole)}; true; true]"
+                nontrivial = False
+            elif kind == "value":
+                want_vals = col_values(flat.eval(plain_lines[0]))
+                want_index = [repr(l) for l, k in zip(labels, lens) for _ in range(k)]
+                ok = (res[0] == "ok" and isinstance(res[1], pd.Series) and cq_vals(col_values(res[1])) == cq_vals(want_vals)
+                      and [repr(x) for x in res[1].index] == want_index)
+                term = f"[true; {cq_bool(ok and unchanged)}; true; true]"
+                nontrivial = len(want_vals) > 1
+            elif kind == "new_nest":
+                vals = val_lists[0][1]
+                want, pos = [], 0
+                for k in lens:
+                    want.append([[v] for v in vals[pos:pos + k]] if k else None)
+                    pos += k
+                ok_frame = False
+                impl = res
+                if res[0] == "ok":
+                    out = res[1]
+                    ok_frame = (isinstance(out, NestedFrame) and fo.snapshot(out, skip=("m",)) == whole and list(out.columns) == list(nf.columns) + ["m"]
+                                and list(out["m"].nest.fields) == ["z"])
+                    impl = ("ok", fo.rows_rm(out["m"].array.chunked_array))
+                term = (f"(match chk_rows (Ok {fo.cq_nrows(want)}) (Ok {fo.cq_nrows(want)}) {fo.cq_res_nrows(impl)} with [a; b; c; s] => "
+                        f"[a; b && {cq_bool(ok_frame and unchanged)}; c; s] | l => l end)")
+                nontrivial = sum(lens) > 1
+            else:
+                # model: fold the oracle's values through m_eval_assign, positions by field order
+                fields_now = list(names)
+                model = f"(Ok {fo.cq_nrows(rows)})"
+                for tgt, vals in val_lists:
+                    if tgt not in fields_now:
+                        fields_now.append(tgt)
+                    k = fields_now.index(tgt)
+                    model = f"(res_bind {model} (fun R => m_eval_assign {k} R {cq_vals(vals)}))"
+                ok_frame = False
+                impl = res
+                if res[0] == "ok":
+                    out = res[1]
+                    ok_frame = (isinstance(out, NestedFrame) and fo.snapshot(out, skip=(NEST,)) == before_other and list(out.columns) == list(nf.columns)
+                                and list(out[NEST].nest.fields) == fields_now and [repr(x) for x in out.index] == [repr(x) for x in labels])
+                    if ok_frame:
+                        # the flat view of the result = the oracle's flat table, column by column
+                        for f in fields_now:
+                            got = col_values(out[NEST].nest.get_flat_series(f))
+                            ok_frame = ok_frame and cq_vals(got) == cq_vals(col_values(flat[f]))
+                            # ... and the result is an ordinary frame: the same field read through its back-ticked path
+                            via_path = attempt(lambda: col_values(out[f"`{NEST}`.`{f}`"]))
+                            ok_frame = ok_frame and via_path[0] == "ok" and cq_vals(via_path[1]) == cq_vals(got)
+                    impl = ("ok", fo.rows_rm(out[NEST].array.chunked_array, fields_now))
+                term = (f"(match chk_rows {model} {model} {fo.cq_res_nrows(impl)} with [a; b; c; s] => "
+                        f"[a; b && {cq_bool(ok_frame and unchanged)}; c; s] | l => l end)")
+                nontrivial = sum(lens) > 1
+            cases.append({
+                "stream": "eval", "op": "eval_" + kind, "term": term,
+                "input": dict(ao.input_repr(inp), labels=[repr(x) for x in labels], field_names=names, program=program, inplace=inplace),
+                "impl_repr": str(res)[:500],
+                "meta": ao.base_meta(inp, impl_raised=res[0] == "err", repeated_labels=len(set(labels)) != len(labels), label_kind=label_kind,
+                                     multiline=nlines > 1, inplace=inplace),
+                "sig": [kind, nlines, inplace, inp["recipe"], label_kind, len(rows)], "trivial": not nontrivial,
+                "hist": {"op": "eval_" + kind, "lines": nlines, "inplace": inplace, "layout": inp["recipe"], "labels": label_kind,
+                         "raised": res[0] == "err"}})
+        except Exception:  # noqa: BLE001
+            cases.append(_uninterpretable(i, 'C13'))
     for k, c in enumerate(cases):
         c["cid"] = k
     return cases
